@@ -30,6 +30,14 @@ CLAIMS = {
              ref="§3 C08", note=NOTE_COMMON + " context is a Go-source model of package context."),
  "C17": dict(text="Every acyclic upcaster graph over 4 names within the edge bound (several upcasters per source), a failure at any single step: callback sees the whole chain's composition or the original event, error handler once with the failing step; typed upcaster = JSON of f(decoded).",
              ref="§3 C17", note=NOTE_COMMON),
+ "C12": dict(text="Every history of publishes (two event types), SubscribeWithReplay for two ids, and restarts within the length bound over the real memory stores; one fault per history (failure of any single store operation, or a crash right after any store operation, by a dead-process wrapper); oracle: no persisted event lost, log order within a run, redelivery only of positions never saved, saved offset monotone, exactly once without faults.",
+             ref="§3 C12, Appendix C", note=NOTE_COMMON + " Sequential histories only at this point: a publisher interleaved with a running SubscribeWithReplay is claimed only once the concurrent entry is registered (see evidence entries); SQLite/durable-streams stores are outside this claim."),
+ "C18": dict(text="Materializer driven through the real helpers, bus, memory store and Replay: every sequence of M insert/update/delete/reset/snapshot/unregistered messages over two entity types with SMT-string keys, strict or not, split into two sessions at any point; state compared with a last-writer-wins fold through a universally quantified probe key.",
+             ref="§3 C18, Appendix C", note=NOTE_COMMON),
+ "C19": dict(text="Round trip at JSON-tree level for every helper x option subset x arbitrary strings/nested entity, protocol field names read back from the stored tree; Apply on an arbitrary document (invalid, or an arbitrary tree refined lazily by the decoder's own case distinctions): never panics, error leaves collections and LastOffset unchanged.",
+             ref="§3 C19", note=NOTE_COMMON + " The byte-level JSON scanner/encoder (escaping, number syntax, UTF-8) is trusted std code outside the claim: 'every byte string' is covered as 'not JSON, or any tree the parser can produce'."),
+ "C20": dict(text="Recording Observability whose start callbacks hand out child contexts with fresh ids; workloads mixing Once/Async/filtered/panicking handlers, cancelled contexts, absent/succeeding/failing persistence: pairs balanced, complete gets its start's context, error flags truthful, handler/persist contexts descend from the publish context.",
+             ref="§3 C20", note=NOTE_COMMON + " The OpenTelemetry implementation (otel module) is claimed only once its entry is registered; the OTel SDK itself is outside the claim."),
 }
 
 NOT_APPLICABLE = {
